@@ -1,0 +1,34 @@
+//go:build verif
+
+package types
+
+import (
+	"reflect"
+
+	sdk "github.com/cosmos/cosmos-sdk/types"
+)
+
+// VerifHookCall is one delivery of an epoch notification to one subscriber.
+type VerifHookCall struct {
+	Index      int    // position of the subscriber in the MultiEpochHooks slice
+	Subscriber string // package path of the subscriber's type
+	Kind       string // AfterEpochEnd / BeforeEpochStart
+	Identifier string
+	Number     int64
+	Height     int64
+}
+
+// VerifHookRecorder, when set by a test harness, receives every notification just before it
+// is delivered. Only compiled with the `verif` build tag.
+var VerifHookRecorder func(VerifHookCall)
+
+func verifTrace(ctx sdk.Context, i int, h EpochHooks, kind, id string, n int64) {
+	if VerifHookRecorder == nil {
+		return
+	}
+	t := reflect.TypeOf(h)
+	for t.Kind() == reflect.Ptr {
+		t = t.Elem()
+	}
+	VerifHookRecorder(VerifHookCall{Index: i, Subscriber: t.PkgPath(), Kind: kind, Identifier: id, Number: n, Height: ctx.BlockHeight()})
+}
